@@ -106,6 +106,10 @@ def lib_decode(dec, blob, count_steps):
                     got_pair = (None if rr is None else int(rr), None if ff is None else bytes(ff))
                     if got_pair != want_pair:
                         f['entry_points'] = f'{label} gives {got_pair[0]}/{None if got_pair[1] is None else len(got_pair[1])}'
+                nr, nf = enc.ndnlp_v2.parse_network_nack(blob)
+                want_n = (None, None) if r.nack is None else (r.nack.nack_reason, f['fragment'])
+                if (None if nr is None else int(nr), None if nf is None else bytes(nf)) != (None if want_n[0] is None else int(want_n[0]), want_n[1]):
+                    f['entry_points'] = f'parse_network_nack gives {nr}/{None if nf is None else len(nf)}'
                 r3 = enc.parse_lp_packet_v2(value, with_tl=False)
                 if (None if r3.fragment is None else bytes(r3.fragment)) != f['fragment'] or (r3.nack is None) != (r.nack is None):
                     f['entry_points'] = 'parse_lp_packet_v2(value, with_tl=False) differs'
@@ -121,6 +125,9 @@ def lib_decode(dec, blob, count_steps):
                  'sig_value': None if r.signature_value is None else bytes(r.signature_value),
                  'not_before': None if si is None or si.validity_period is None or si.validity_period.not_before is None else bytes(si.validity_period.not_before),
                  'not_after': None if si is None or si.validity_period is None or si.validity_period.not_after is None else bytes(si.validity_period.not_after)}
+            ad = None if si is None else si.additional_description
+            f['descr'] = None if ad is None else [[None if e.description_key is None else bytes(e.description_key),
+                                                   None if e.description_value is None else bytes(e.description_value)] for e in ad.description_entry]
         else:
             f = {'name': [bytes(c) for c in Name.from_bytes(blob)]}
         return 'ok', f
@@ -172,6 +179,7 @@ def ref_decode(dec, blob):
             if dec == 'cert':
                 f['not_before'] = r['sig_info']['not_before'] if r['sig_info'] else None
                 f['not_after'] = r['sig_info']['not_after'] if r['sig_info'] else None
+                f['descr'] = r['sig_info']['descr'] if r['sig_info'] else None
                 f.pop('signed')
         elif dec == 'lp':
             r = ns.read_lp(blob)
@@ -286,6 +294,13 @@ def corpus():
     cp['data-rootname'] = bytes(enc.make_data('/', enc.MetaInfo(freshness_period=5), b'named /'))       # a Name element with no components
     cp['interest-rootname'] = bytes(enc.make_interest('/', enc.InterestParam(nonce=2, lifetime=10, can_be_prefix=True)))
     cp['name'] = bytes(Name.to_bytes('/a/b/32=c'))
+    # a certificate whose SignatureInfo carries ValidityPeriod and AdditionalDescription (two entries)
+    base = ts.read_single(cp['certificate']) if 'certificate' in cp else None
+    if base is not None:
+        ch = base.children()
+        si = [c for c in ch if c.typ == 0x16][0]
+        descr = ts.tlv(0x0102, ts.tlv(0x0200, ts.tlv(0x0201, b'org') + ts.tlv(0x0202, b'example')) + ts.tlv(0x0200, ts.tlv(0x0201, b'mail') + ts.tlv(0x0202, b'a@b')))
+        cp['certificate-described'] = ts.tlv(6, b''.join(c.wire if c is not si else ts.tlv(0x16, si.value + descr) for c in ch))
     lp = enc.ndnlp_v2.LpPacket()
     lp.lp_packet = enc.ndnlp_v2.LpPacketValue()
     lp.lp_packet.pit_token = b'tk'
